@@ -118,7 +118,11 @@ fn make_defect(ctx: &mut Ctx, rng: &mut Rng, ic: &IssuedCase, kind: &str, target
             key.as_ref()?;
             let sibs = sibling_keys(&ic.tree, target)?;
             let clear: Vec<&(String, bool)> = sibs.iter().filter(|s| s.1).collect();
-            let pick = if !clear.is_empty() { clear[rng.below(clear.len())].0.clone() } else if !sibs.is_empty() { sibs[rng.below(sibs.len())].0.clone() } else { return None };
+            // the name of a sibling signed in the clear, or (every other time there is one) of another HIDDEN
+            // sibling: the name then exists next to the digest only once that sibling's disclosure is placed
+            let hidden: Vec<&(String, bool)> = sibs.iter().filter(|s| !s.1).collect();
+            let pick = if !hidden.is_empty() && (clear.is_empty() || rng.chance(1, 2)) { detail["collides_with_hidden_sibling"] = json!(true); hidden[rng.below(hidden.len())].0.clone() }
+                else if !clear.is_empty() { clear[rng.below(clear.len())].0.clone() } else { return None };
             detail["collides_with"] = json!(pick);
             tree.set_disc(target, &b64j(&json!([salt, pick, v])));
         }
@@ -249,6 +253,8 @@ pub fn run_case(ctx: &mut Ctx, case: &Value, every_target: bool) {
     };
     // the conformant twin must be accepted
     three_entries(ctx, &ic.token, true, case, &json!({"kind": "twin"}));
+    // (a token that hides nothing offers no disclosure to give a defect to)
+    if ic.marks.is_empty() { ctx.report.bump("token-hides-nothing"); return; }
     let mut rng = Rng::fork(ctx.seed ^ 0xC12, crate::report::hash_of(&case["tree"]));
     let plan: Vec<(String, usize)> = match (case.get("defect_kind").and_then(|k| k.as_str()), case.get("defect_target").and_then(|t| t.as_u64())) {
         (Some(k), Some(t)) => vec![(k.to_string(), t as usize)],
